@@ -31,7 +31,7 @@ CLAIMS = {
         text='Bounded model checking of the real decoder with an UNINTERPRETED verifier (d_min_lite: every filling of the template [sig4, seq, id:<2 bytes>, k:<key>] '
              'followed by 0 or 43 arbitrary bytes): a record is accepted only if the verifier was consulted, answered yes, and was asked about the public key carried in that very record; '
              'verify() itself is pinned on arbitrary by-parts records (a_verify_iff: true exactly for id v4 and a signature of the carried key over the record content). '
-             'Thorough: k256 verify_v4 glue with the EC equation stubbed (64-byte only, r/s range, high-S twin rejected before the equation, r||s passed unmodified).',
+             'The k256 verify_v4 glue harness (high-S twin) is written but does not finish within the caps and is not part of any tier.',
         note='What is decided is the wiring around the signature primitive (what is verified, with which key, what is done with the answer), for the model scheme MKey; '
              'unforgeability and the arithmetic of k256 / libsecp256k1 / ed25519-dalek are trusted. The message handed to the verifier is checked by length and three sampled bytes only. '
              'rust-secp256k1 and ed25519 verify_v4 are not covered (primitive behind FFI / trait seams).',
@@ -53,7 +53,7 @@ CLAIMS = {
     'C04': dict(
         text='Fragments decided: decoded records report custom and reserved values as the raw RLP of the input and re-encode to the input length (13 accepted probe records incl. empty/nested lists, empty string, '
              'single byte, 2^64-1); values stored by insert_raw_rlp / the builder are exactly the bytes given and readable through get() (u_insert_raw, u_build_raw); canonical text parses back (t_probes_accept). '
-             'Thorough: to_base64 of a concrete record.',
+             '(to_base64 of a concrete record: harness written, does not finish.)',
         note='decode(encode(e)) == e for arbitrary e and byte-exact re-encoding are NOT decided for symbolic records: reading an encoded record back exhausts the solver (array-theory blow-up, DESIGN.md 11.2). '
              'JSON through serde_json not covered (serde driven by value (de)serialisers).',
         ref='DESIGN.md section 4/C04'),
@@ -96,7 +96,7 @@ CLAIMS = {
     'C12': dict(
         text='Strict parsing decided on concrete probe texts through the real from_str / base64 engine / decoder (fold completely): canonical text accepted with and without prefix (incl. the - and _ characters); '
              'repeated / upper-case / malformed prefix, padding, standard alphabet, blanks, newline, non-zero trailing bits, a byte after the record, an extra or missing character all rejected; Deserialize as strict as from_str.',
-        note='Concrete inputs, not for-all: the base64 engine on symbolic text does not fit the caps (82 s for 8 characters; a record needs 23). Error-message formatting stubbed on reject paths. Display/Serialize of records in the thorough tier only.',
+        note='Concrete inputs, not for-all: the base64 engine on symbolic text does not fit the caps (82 s for 8 characters; a record needs 23). Error-message formatting stubbed on reject paths. Display/Serialize of records: harnesses written, do not finish (String formatting).',
         ref='DESIGN.md section 4/C12'),
     'C13': dict(
         text='Decided on the scaled limit (32): an item of 20, 32 or 33 bytes followed by EVERY suffix length 0..=27 of arbitrary bytes gets the outcome of the item alone (size error exactly above the limit); '
@@ -121,8 +121,7 @@ CLAIMS = {
         text='Bounded model checking (Kani/CBMC) of the real NodeId code: every slice of length 0..=64 through parse, '
              'all 32-byte values through new/raw/as_ref/From/PartialEq, every ASCII string of length 0..=70 through the '
              'real serde hex deserialiser against a reference acceptor. The solver decides each assertion for all inputs '
-             'in those bounds; nothing is claimed for longer inputs. Serialize/Debug/Display (String formatting) are in the '
-             'thorough tier.',
+             'in those bounds; nothing is claimed for longer inputs. Serialize/Debug/Display harnesses (String formatting) are written but do not finish within the caps.',
         note='Trusted: Kani/CBMC/CaDiCaL, rustc MIR->GOTO translation; serde driven through in-crate value (de)serialisers, '
              'not serde_json; non-ASCII strings outside the bound.',
         ref='DESIGN.md section 4/C16'),
